@@ -76,14 +76,30 @@ def cycle_broken(ctx) -> bool:
             if isinstance(n, ast.Call) and isinstance(n.func, ast.Attribute) and n.func.attr == "handle" \
                     and dotted(n.func.value) not in ("self", "super()"):
                 proto = norm(n.func.value)
-                for tr in enclosing_tries(rh.node, n):
-                    for st in tr.finalbody:
+                from ..structure import bind_params
+
+                def drops(stmts, bind, depth=0):
+                    for st in stmts:
                         for x in ast.walk(st):
-                            if isinstance(x, ast.Assign) and any(norm(t) == f"{proto}.handler" for t in x.targets) \
-                                    and isinstance(x.value, ast.Constant) and x.value.value is None:
-                                res = True
-                            if isinstance(x, ast.Delete) and any(norm(t) == f"{proto}.handler" for t in x.targets):
-                                res = True
+                            if isinstance(x, ast.Assign) and isinstance(x.value, ast.Constant) and x.value.value is None \
+                                    and any(norm(bind_params(t, bind)) == f"{proto}.handler" for t in x.targets):
+                                return True
+                            if isinstance(x, ast.Delete) and any(norm(bind_params(t, bind)) == f"{proto}.handler" for t in x.targets):
+                                return True
+                            # a helper of the connection handler that is handed the protocol object
+                            if depth < 2 and isinstance(x, ast.Call) and isinstance(x.func, ast.Attribute) and dotted(x.func.value) in ("self", "cls"):
+                                g = ctx.prog.resolve_method(rh.cls, x.func.attr) if rh.cls is not None else None
+                                if g is not None:
+                                    static = any(isinstance(d_, ast.Name) and d_.id == "staticmethod" for d_ in g.node.decorator_list)
+                                    params = g.params if static else g.params[1:]
+                                    b2 = {p_: bind_params(a_, bind) for p_, a_ in zip(params, x.args)}
+                                    if drops(g.node.body, b2, depth + 1):
+                                        return True
+                    return False
+
+                for tr in enclosing_tries(rh.node, n):
+                    if drops(tr.finalbody, {}):
+                        res = True
     # the protocol must not keep the handler anywhere else
     pb = ctx.cls("protocols.base.BaseGopherProtocol")
     if res and pb is not None:
@@ -199,6 +215,15 @@ def check(ctx, rep):
                     problems.append(f"`except {norm(h.type) if h.type else ''}` re-raises")
                 logs = [x for x in ast.walk(h) if isinstance(x, ast.Call) and (dotted(x.func) or "").endswith("GopherExceptions.log")]
                 if not logs:
+                    # ... or through a helper of the connection handler that logs on every path
+                    for x in ast.walk(h):
+                        if isinstance(x, ast.Call) and isinstance(x.func, ast.Attribute) and dotted(x.func.value) in ("self", "cls") and rh.cls is not None:
+                            g = prog.resolve_method(rh.cls, x.func.attr)
+                            if g is not None:
+                                gp = [p_ for p_ in Walker(prog, ctx.resolver).run(g, rh.cls) if p_.kind != "raise"]
+                                if gp and all(any(e.kind == "call" and (dotted(e.node.func) or "").endswith("GopherExceptions.log") for e in p_.events) for p_ in gp):
+                                    logs.append(x)
+                if not logs:
                     problems.append(f"`except {norm(h.type) if h.type else ''}` does not log the failure through GopherExceptions.log")
                 for lg in logs:
                     if not (len(lg.args) >= 2 and h.name and norm(lg.args[0]) == h.name and norm(lg.args[1]) == proto):
@@ -260,6 +285,46 @@ def check(ctx, rep):
                 ok = bool(writers)
                 rep.add("R20b", f"{h.qualname}: I/O error answered", ok, ctx.where(h, n),
                         "the I/O-error handler sends no error reply" if not ok else "", key=f"R20b|{h.qualname}|ioreply", nontrivial=False)
+                # OSError.strerror is None for errors built from one argument (socket.timeout("timed out")): a writer that is
+                # handed the bare attribute must not do string-only things with it, or a TypeError replaces the client's failure
+                for c in writers:
+                    args_ = list(c.args) + [k.value for k in c.keywords]
+                    maybe_none = [a for a in args_ if isinstance(a, ast.Attribute) and a.attr in ("strerror", "filename", "errno") and norm(a.value) == n.name]
+                    if not maybe_none:
+                        continue
+                    W = prog.resolve_method(P, c.func.attr)
+                    if W is None:
+                        continue
+                    wparams = W.params[1:]
+                    for a in maybe_none:
+                        idx = args_.index(a)
+                        pname = wparams[idx] if idx < len(wparams) else None
+                        if pname is None:
+                            continue
+                        unsafe = None
+                        for st_ in W.node.body:
+                            # rebinding to a string first makes the rest safe
+                            if isinstance(st_, ast.Assign) and any(isinstance(t, ast.Name) and t.id == pname for t in st_.targets):
+                                v = st_.value
+                                if (isinstance(v, ast.Call) and dotted(v.func) == "str") or (isinstance(v, ast.BoolOp) and isinstance(v.op, ast.Or)
+                                                                                             and norm(v.values[0]) == pname):
+                                    break
+                            for x in ast.walk(st_):
+                                if isinstance(x, ast.Call):
+                                    d_ = dotted(x.func) or ""
+                                    if isinstance(x.func, ast.Attribute) and isinstance(x.func.value, ast.Name) and x.func.value.id == pname:
+                                        unsafe = norm(x)[:50]
+                                    elif (d_.startswith("re.") or d_ in ("html.escape", "urllib.parse.quote", "len")) and any(
+                                            isinstance(y, ast.Name) and y.id == pname for y in x.args):
+                                        unsafe = norm(x)[:50]
+                                if isinstance(x, ast.BinOp) and isinstance(x.op, ast.Add) and any(isinstance(y, ast.Name) and y.id == pname for y in (x.left, x.right)):
+                                    unsafe = norm(x)[:50]
+                            if unsafe:
+                                break
+                        rep.add("R20b", f"{h.qualname}: {W.qualname} tolerates `{norm(a)}` being None", unsafe is None, ctx.where(W),
+                                f"`{unsafe}` needs a string, but {h.qualname} hands over `{norm(a)}`, which is None for single-argument I/O errors (a send "
+                                "time-out): the TypeError raised while answering replaces the client's failure in the log" if unsafe else "",
+                                key=f"R20b|{h.qualname}|{W.qualname}|none")
 
     # ------------------------------------------------------------------ R20c
     seen = set()
